@@ -187,6 +187,11 @@ fn main() {
         let scfgs = vh_seq::emfx::gen_::scaled_configs();
         let ps: Vec<Emf> = scfgs.iter().map(|c| c.build()).collect();
         for (cfg, p) in scfgs.iter().zip(&ps) {
+            // first an entry with more than 1 MiB of metric text: the long-lived formatter of this
+            // configuration has formatted it before the scaled entries that follow
+            let huge = vh_seq::emfx::gen_::build_entry(cfg, vh_seq::emfx::gen_::frame_minimal(), vec![(s("H"), ValD::Metric { obs: vh_seq::emfx::gen_::huge_obs(), unit: UnitD::None, dims: vec![], flag: FlagD::None })]);
+            check(&mut st, cfg, p, &huge);
+            scaled_cases += 1;
             for (_name, entry) in vh_seq::emfx::gen_::scaled_entries(cfg, rep.tier) {
                 check(&mut st, cfg, p, &entry);
                 scaled_cases += 1;
